@@ -1,5 +1,6 @@
 import QuantemModel.Props.C01
 import QuantemModel.Lemmas.SerializeInd
+import QuantemModel.Lemmas.SerializeSkipExt
 /-!
 C14 — serializer skip lists, for the executable model of serialize.py.
 Only property theorems and non-vacuity examples live here.
@@ -410,5 +411,446 @@ example : stripA ["count", "zz"] sample =
       ("child", .obj "SB" [("flag", .scalar (.bool true)),
         ("l", .list [.scalar (.str "count"), .dict [("count", .scalar (.int 3))]])])] := by
   rfl
+
+/-! ## growth round 5: the extended model (Model/SerializeSkipExt.lean)
+
+`saveG inst` / `loadX` / `normSkip` / `sstep`: the `skip` argument in its call forms, `isinstance`
+as a parameter (abstract base classes with virtual subclasses included), a save that raises
+part-way, the load-time type test exactly where the code has it, and histories of calls. -/
+section Growth5
+open QuantemModel.SerializeSkip
+
+/-- what the theorems need from an `isinstance` relation: it contains the exact-type match the
+loader applies to restored array / group values, and it looks at the class of an object only -/
+structure InstOk (inst : Val → String → Bool) : Prop where
+  exact : ∀ v t, nsVal v ≠ .attr → isRng v = false → exactType (canon v) t = true → inst v t = true
+  objCls : ∀ cls a a' t, inst (.obj cls a) t = inst (.obj cls a') t
+
+theorem instOk_isInstance : InstOk isInstance where
+  exact := fun v t hns _ h => exactType_canon_isInstance v t hns h
+  objCls := by intro cls a a' t; simp [isInstance]
+
+/-- the relation with abstract base classes (`numbers.Real`, `collections.abc.Mapping`, `os.PathLike`,
+`object`, …) qualifies as well -/
+theorem instOk_isInstanceX : InstOk isInstanceX where
+  exact := fun v t hns _ h => by simp [isInstanceX, exactType_canon_isInstance v t hns h]
+  objCls := by intro cls a a' t; simp [isInstanceX, isInstance, abcInstance]
+
+/-- at the base relation the parametric `save` is the `save` of Model/Serialize.lean -/
+theorem saveG_isInstance (sk : Skip) (v : Val) : saveG isInstance sk v = save sk v := by
+  simp [saveG, save, (encodeG_isInstance sk).1 v]
+
+/-! ### the `skip` argument -/
+
+/-- a bare name / a bare type is the one-element list -/
+theorem normSkip_bare (s : String) :
+    normSkip (.bareName s) = normSkip (.seq [.name s]) ∧ normSkip (.bareType s) = normSkip (.seq [.type s]) := by
+  simp [normSkip, SkipArg.items]
+
+/-- exactly the listed names and the listed types reach the filter: nothing is added, nothing
+dropped, whatever else the sequence contains and in whatever order -/
+theorem normSkip_mem (a : SkipArg) (s : String) :
+    (s ∈ (normSkip a).names ↔ SkipItem.name s ∈ a.items) ∧ (s ∈ (normSkip a).types ↔ SkipItem.type s ∈ a.items) := by
+  constructor
+  · simp only [normSkip, List.mem_filterMap]
+    constructor
+    · rintro ⟨x, hx, hn⟩
+      cases x <;> simp [nameOf] at hn
+      subst hn; exact hx
+    · intro h; exact ⟨_, h, rfl⟩
+  · simp only [normSkip, List.mem_filterMap]
+    constructor
+    · rintro ⟨x, hx, hn⟩
+      cases x <;> simp [typeOf] at hn
+      subst hn; exact hx
+    · intro h; exact ⟨_, h, rfl⟩
+
+/-- entries that are neither `str` nor `type` are ignored -/
+theorem normSkip_other (xs ys : List SkipItem) : normSkip (.seq (xs ++ .other :: ys)) = normSkip (.seq (xs ++ ys)) := by
+  have h1 : nameOf .other = none := rfl
+  have h2 : typeOf .other = none := rfl
+  simp [normSkip, SkipArg.items, List.filterMap_append, List.filterMap_cons, h1, h2]
+
+/-- **`Ptychography.save`** hands over exactly the caller's names and types, plus `_dset` / `dset`
+unless `save_raw_data`; nothing is carried from one call to the next (the list is a function of
+this call's arguments only) -/
+theorem ptychoSkip_spec (a : SkipArg) (raw : Bool) :
+    (normSkip (ptychoSkipArg a raw)).names = (normSkip a).names ++ (if raw then [] else ["_dset", "dset"]) ∧
+    (normSkip (ptychoSkipArg a raw)).types = (normSkip a).types := by
+  cases raw <;> simp [normSkip, ptychoSkipArg, SkipArg.items, List.filterMap_append, nameOf, typeOf]
+
+/-! ### save side -/
+
+/-- skipping names and types at save time writes exactly the tree of the stripped graph -/
+theorem encodeAttrsG_strip (inst : Val → String → Bool) (ns ts : List String) : ∀ attrs, attrNestedAttrs attrs = true →
+    encodeAttrsG inst ⟨ns, ts⟩ attrs = encodeAttrs {} (stripAttrsG inst ns ts attrs) := by
+  apply attrs_ind
+  · intro _; simp [encodeAttrsG, encodeAttrs, stripAttrsG]
+  · intro k cls sub rest ih1 ih2 h
+    have h' : attrNestedAttrs sub = true ∧ attrNestedAttrs rest = true := by
+      simpa [attrNestedAttrs, attrNested] using h
+    by_cases hk : (k ∈ ns ∨ ∃ x, x ∈ ts ∧ inst (.obj cls sub) x = true)
+    · simp [encodeAttrsG, stripAttrsG, hk, ih2 h'.2]
+    · simp [encodeAttrsG, encodeAttrs, stripAttrsG, hk, ih2 h'.2, encodeG, encode, ih1 h'.1, stripG]
+  · intro k v rest hno ih h
+    have hf := nonobj_stripG inst ns ts v hno
+    have h' : noObj v = true ∧ attrNestedAttrs rest = true := by
+      rw [← hf.2.2.1]; simpa [attrNestedAttrs] using h
+    by_cases hk : (k ∈ ns ∨ ∃ x, x ∈ ts ∧ inst v x = true)
+    · simp [encodeAttrsG, stripAttrsG, hk, ih h'.2]
+    · simp [encodeAttrsG, encodeAttrs, stripAttrsG, hk, ih h'.2, hf.1, (encodeG_noObj inst ⟨ns, ts⟩).1 v h'.1]
+
+/-- a save raises part-way exactly when the stripped graph still holds an unpicklable value:
+naming the offending attributes (by name or by type) is what makes the retry succeed -/
+theorem raises_iff_stripped (inst : Val → String → Bool) (ns ts : List String) : ∀ attrs, attrNestedAttrs attrs = true →
+    raisesAttrsG inst ⟨ns, ts⟩ attrs = raisesAttrsG inst {} (stripAttrsG inst ns ts attrs) := by
+  apply attrs_ind
+  · intro _; simp [raisesAttrsG, stripAttrsG]
+  · intro k cls sub rest ih1 ih2 h
+    have h' : attrNestedAttrs sub = true ∧ attrNestedAttrs rest = true := by
+      simpa [attrNestedAttrs, attrNested] using h
+    by_cases hk : (k ∈ ns ∨ ∃ x, x ∈ ts ∧ inst (.obj cls sub) x = true)
+    · simp [raisesAttrsG, stripAttrsG, hk, ih2 h'.2]
+    · simp [raisesAttrsG, stripAttrsG, hk, ih2 h'.2, raisesG, ih1 h'.1, stripG]
+  · intro k v rest hno ih h
+    have hf := nonobj_stripG inst ns ts v hno
+    have h' : noObj v = true ∧ attrNestedAttrs rest = true := by
+      rw [← hf.2.2.1]; simpa [attrNestedAttrs] using h
+    by_cases hk : (k ∈ ns ∨ ∃ x, x ∈ ts ∧ inst v x = true)
+    · simp [raisesAttrsG, stripAttrsG, hk, ih h'.2]
+    · simp [raisesAttrsG, stripAttrsG, hk, ih h'.2, hf.1, (raisesG_noObj inst ⟨ns, ts⟩).1 v h'.1]
+
+theorem stripG_facts (inst : Val → String → Bool) (hI : InstOk inst) (ns ts : List String) : ∀ attrs,
+    wfAttrs attrs = true → attrNestedAttrs attrs = true →
+    wfAttrs (stripAttrsG inst ns ts attrs) = true ∧ attrNestedAttrs (stripAttrsG inst ns ts attrs) = true ∧
+    typeFreeAttrsG inst ts (stripAttrsG inst ns ts attrs) = true := by
+  apply attrs_ind
+  · intro _ _; simp [stripAttrsG, wfAttrs, attrNestedAttrs, typeFreeAttrsG]
+  · intro k cls sub rest ih1 ih2 hw ha
+    have hw' : wfAttrs sub = true ∧ wfAttrs rest = true := by simpa [wfAttrs, wfA] using hw
+    have ha' : attrNestedAttrs sub = true ∧ attrNestedAttrs rest = true := by
+      simpa [attrNestedAttrs, attrNested] using ha
+    obtain ⟨a1, a2, a3⟩ := ih1 hw'.1 ha'.1
+    obtain ⟨b1, b2, b3⟩ := ih2 hw'.2 ha'.2
+    by_cases hk : (k ∈ ns ∨ ∃ x, x ∈ ts ∧ inst (.obj cls sub) x = true)
+    · simp [stripAttrsG, hk, b1, b2, b3]
+    · have hk' : ∀ x, x ∈ ts → inst (.obj cls (stripAttrsG inst ns ts sub)) x = false := by
+        intro x hx
+        rw [hI.objCls cls _ sub x]
+        by_cases hx' : inst (.obj cls sub) x = true
+        · exact absurd (Or.inr ⟨x, hx, hx'⟩) hk
+        · simpa using hx'
+      simp [stripAttrsG, hk, wfAttrs, wfA, attrNestedAttrs, attrNested, typeFreeAttrsG, typeFreeG, stripG,
+        a1, a2, a3, b1, b2, b3]
+      exact hk'
+  · intro k v rest hno ih hw ha
+    have hw' : wfA v = true ∧ wfAttrs rest = true := by simpa [wfAttrs] using hw
+    have ha' : attrNested v = true ∧ attrNestedAttrs rest = true := by simpa [attrNestedAttrs] using ha
+    obtain ⟨b1, b2, b3⟩ := ih hw'.2 ha'.2
+    have hs := nonobj_stripG inst ns ts v hno
+    by_cases hk : (k ∈ ns ∨ ∃ x, x ∈ ts ∧ inst v x = true)
+    · simp [stripAttrsG, hk, b1, b2, b3]
+    · have hk' : ∀ x, x ∈ ts → inst v x = false := by
+        intro x hx
+        by_cases hx' : inst v x = true
+        · exact absurd (Or.inr ⟨x, hx, hx'⟩) hk
+        · simpa using hx'
+      simp [stripAttrsG, hk, wfAttrs, attrNestedAttrs, typeFreeAttrsG, hs.1, hs.2.1, hw'.1, ha'.1, b1, b2, b3]
+      exact hk'
+
+/-! ### load side -/
+
+theorem isRng_canon (v : Val) : isRng (canon v) = isRng v := by
+  cases v with
+  | list xs => simp only [canon]; split <;> rfl
+  | tuple xs => simp only [canon]; split <;> rfl
+  | set xs => simp only [canon]; split <;> rfl
+  | _ => simp [canon, isRng]
+
+/-- the extended decoder of a non-object attribute is the base decoder (skip lists irrelevant) -/
+theorem decodeAttrX_nonobj (sk : Skip) (v : Val) (h : isObjV v = false) :
+    decodeAttrX sk (encode {} v) = decodeAttr {} (encode {} v) := by
+  have hb := decodeAttr_skip_irrelevant sk v (by cases v <;> simp_all [isObjV, isObj])
+  rw [← hb]
+  cases v with
+  | obj c a => simp [isObjV] at h
+  | ndarray dt sh d =>
+      simp only [encode, writeNdarray]
+      split
+      · simp [decodeAttrX]
+      · split <;> simp [decodeAttrX]
+  | list xs => simp only [encode, encodeSeq]; split <;> simp [decodeAttrX]
+  | tuple xs => simp only [encode, encodeSeq]; split <;> simp [decodeAttrX]
+  | set xs =>
+      simp only [encode, encodeSeq]
+      by_cases hf : (xs.all isNumeric && !xs.isEmpty) = true <;> simp [hf, decodeAttrX]
+  | scalar s => simp [encode, decodeAttrX]
+  | npScalar dt s => simp [encode, decodeAttrX]
+  | path p => simp [encode, decodeAttrX]
+  | torch k c t => cases k <;> simp [encode, decodeAttrX, torchFlag, ftrue, fget]
+  | fallback c t => simp [encode, decodeAttrX]
+  | rawBytes p => cases p; simp [encode, decodeAttrX]
+  | npRng b => simp [encode, decodeAttrX, ftrue, fget]
+  | torchRng => simp [encode, decodeAttrX, ftrue, fget]
+  | pyLogger n l => simp [encode, decodeAttrX, ftrue, fget]
+  | dict kvs => simp [encode, decodeAttrX, ftrue, fget]
+
+private theorem any_exact_false_G (inst : Val → String → Bool) (hI : InstOk inst) (ts : List String) (v : Val)
+    (hns : nsVal v ≠ .attr) (hr : isRng v = false)
+    (hfree : ∀ x, x ∈ ts → inst v x = false) : ts.any (exactType (canon v)) = false := by
+  rw [List.any_eq_false]
+  intro t ht he
+  have := hI.exact v t hns hr (by simpa using he)
+  rw [hfree t ht] at this
+  exact absurd this (by simp)
+
+/-- **the loader on the tree of a graph that holds no instance of the listed types**: names are
+removed at every attribute-nested level, the type list removes nothing, everything else loads as
+without skipping -/
+theorem decodeX_strip (inst : Val → String → Bool) (hI : InstOk inst) (N ts : List String) : ∀ (attrs : List (String × Val)),
+    wfAttrs attrs = true → attrNestedAttrs attrs = true → typeFreeAttrsG inst ts attrs = true →
+    decodeAttrsX ⟨N, ts⟩ (encodeAttrs {} attrs) = .ok (canonKvs (stripAttrs N attrs)) ∧
+    ∀ x ∈ canonKvs (stripAttrs N attrs), keepX ts x = true := by
+  apply attrs_ind
+  · intro _ _ _; simp [encodeAttrs, decodeAttrsX, stripAttrs, canonKvs]
+  · intro k cls sub rest ih1 ih2 hw ha hf
+    have hw' : wfAttrs sub = true ∧ wfAttrs rest = true := by simpa [wfAttrs, wfA] using hw
+    have ha' : attrNestedAttrs sub = true ∧ attrNestedAttrs rest = true := by
+      simpa [attrNestedAttrs, attrNested] using ha
+    have hf' : (∀ x, x ∈ ts → inst (.obj cls sub) x = false) ∧ typeFreeAttrsG inst ts sub = true ∧ typeFreeAttrsG inst ts rest = true := by
+      simpa [typeFreeAttrsG, typeFreeG, and_assoc] using hf
+    obtain ⟨i1a, i1b⟩ := ih1 hw'.1 ha'.1 hf'.2.1
+    obtain ⟨i2a, i2b⟩ := ih2 hw'.2 ha'.2 hf'.2.2
+    have hx := any_exact_false_G inst hI ts (.obj cls sub) (by simp [nsVal]) (by simp [isRng]) hf'.1
+    have hx' : ∀ X, ts.any (exactType (.obj cls X)) = false := by
+      intro X
+      simpa [canon, exactType] using hx
+    by_cases hk : k ∈ N
+    · simp only [encodeAttrs, stripAttrs]
+      simp [decodeAttrsX, hk, i2a]
+      exact fun a b c h => i2b (a, b, c) h
+    · constructor
+      · simp [encodeAttrs, decodeAttrsX, stripAttrs, hk, encode, decodeAttrX, ftrue, fget, i1a, dropTypesX_eq_self ts _ i1b, i2a,
+          canonKvs, canon, stripA, nsOf, nsVal, bind, Except.bind]
+      · intro x hxm
+        have hxm' : x = (k, nsVal (stripA N (.obj cls sub)), canon (stripA N (.obj cls sub))) ∨ x ∈ canonKvs (stripAttrs N rest) := by
+          simpa [stripAttrs, hk, canonKvs] using hxm
+        rcases hxm' with rfl | hm
+        · simp [keepX, stripA, canon, hx']
+        · exact i2b x hm
+  · intro k v rest hno ih hw ha hf
+    have hw' : wfA v = true ∧ wfAttrs rest = true := by simpa [wfAttrs] using hw
+    have ha' : attrNested v = true ∧ attrNestedAttrs rest = true := by simpa [attrNestedAttrs] using ha
+    have hf' : (∀ x, x ∈ ts → inst v x = false) ∧ typeFreeG inst ts v = true ∧ typeFreeAttrsG inst ts rest = true := by
+      simpa [typeFreeAttrsG, and_assoc] using hf
+    obtain ⟨i2a, i2b⟩ := ih hw'.2 ha'.2 hf'.2.2
+    have hs := (nonobj_stripG inst N ts v hno).2.2.2
+    by_cases hk : k ∈ N
+    · simp only [encodeAttrs, stripAttrs]
+      simp [decodeAttrsX, hk, i2a]
+      exact fun a b c h => i2b (a, b, c) h
+    · constructor
+      · simp [encodeAttrs, decodeAttrsX, stripAttrs, hk, decodeAttrX_nonobj _ v hno, roundtrip_attr v hw'.1, i2a,
+          canonKvs, hs, bind, Except.bind, nsOf_encode]
+      · intro x hxm
+        have hxm' : x = (k, nsVal v, canon v) ∨ x ∈ canonKvs (stripAttrs N rest) := by
+          simpa [stripAttrs, hk, canonKvs, hs] using hxm
+        rcases hxm' with rfl | hm
+        · by_cases hns : nsVal v = .attr
+          · simp [keepX, hns]
+          · by_cases hr : isRng v = true
+            · simp [keepX, isRng_canon, hr]
+            · have hx := any_exact_false_G inst hI ts v hns (by simpa using hr) hf'.1
+              simp [keepX, hx]
+        · exact i2b x hm
+
+/-- **C14, all clauses in one statement.**  For every instance relation `inst` (the generator's
+universe, or the one with abstract base classes), names `ns1` and types `ts` given at save time
+and names `ns2` given at load time: the loaded object is exactly the graph with every attribute
+removed — at every attribute-nested level — whose name is in `ns1` or `ns2` or which is an instance
+of a type in `ts`; the lists recorded in the file are what the loader merges in (nothing has to be
+repeated); every other attribute loads as it would without skipping (`canon`, C01). -/
+theorem skip_general (inst : Val → String → Bool) (hI : InstOk inst) (ns1 ns2 ts : List String)
+    (cls : String) (attrs : List (String × Val))
+    (hw : wfA (.obj cls attrs) = true) (ha : attrNested (.obj cls attrs) = true) :
+    loadX ⟨ns2, []⟩ (saveG inst ⟨ns1, ts⟩ (.obj cls attrs)) =
+      .ok (canon (stripG inst (ns2 ++ ns1) ts (.obj cls attrs))) := by
+  have hw' : wfAttrs attrs = true := by simpa [wfA] using hw
+  have ha' : attrNestedAttrs attrs = true := by simpa [attrNested] using ha
+  have h1 := encodeAttrsG_strip inst ns1 ts attrs ha'
+  obtain ⟨f1, f2, f3⟩ := stripG_facts inst hI ns1 ts attrs hw' ha'
+  obtain ⟨h2, h3⟩ := decodeX_strip inst hI (ns2 ++ ns1.filter (fun n => !ns2.contains n)) ts
+    (stripAttrsG inst ns1 ts attrs) f1 f2 f3
+  have hN : ∀ k, k ∈ ns2 ++ ns1.filter (fun n => !ns2.contains n) ↔ (k ∈ ns2 ∨ k ∈ ns1) := by
+    intro k
+    by_cases h2 : k ∈ ns2 <;> simp [h2]
+  have h4 := strip_strip inst _ ns1 ns2 ts hN attrs
+  rw [h4] at h2 h3
+  have h5 := dropTypesX_eq_self ts _ h3
+  simp only [saveG, encodeG, h1]
+  rw [loadX_obj, h2]
+  simp only [h5, canon, stripG]
+
+/-- the same for the base `save` of Model/Serialize.lean (the one C01 / C08 use) -/
+theorem skip_general_base (ns1 ns2 ts : List String) (cls : String) (attrs : List (String × Val))
+    (hw : wfA (.obj cls attrs) = true) (ha : attrNested (.obj cls attrs) = true) :
+    loadX ⟨ns2, []⟩ (save ⟨ns1, ts⟩ (.obj cls attrs)) =
+      .ok (canon (stripG isInstance (ns2 ++ ns1) ts (.obj cls attrs))) := by
+  rw [← saveG_isInstance]
+  exact skip_general isInstance instOk_isInstance ns1 ns2 ts cls attrs hw ha
+
+/-- **names at load time = names at save time, also next to a type list and other names** -/
+theorem skip_load_eq_save_general (inst : Val → String → Bool) (hI : InstOk inst) (ns ns' ts : List String)
+    (cls : String) (attrs : List (String × Val))
+    (hw : wfA (.obj cls attrs) = true) (ha : attrNested (.obj cls attrs) = true) :
+    loadX ⟨ns, []⟩ (saveG inst ⟨ns', ts⟩ (.obj cls attrs)) = loadX {} (saveG inst ⟨ns ++ ns', ts⟩ (.obj cls attrs)) := by
+  rw [skip_general inst hI ns' ns ts cls attrs hw ha, skip_general inst hI (ns ++ ns') [] ts cls attrs hw ha]
+  simp
+
+/-- **names given at both times** are the names given once; the order and multiplicity of the
+entries is irrelevant -/
+theorem skip_both_eq_once (inst : Val → String → Bool) (hI : InstOk inst) (ns ns' ts : List String)
+    (hperm : ∀ k, k ∈ ns' ↔ k ∈ ns) (cls : String) (attrs : List (String × Val))
+    (hw : wfA (.obj cls attrs) = true) (ha : attrNested (.obj cls attrs) = true) :
+    loadX ⟨ns', []⟩ (saveG inst ⟨ns, ts⟩ (.obj cls attrs)) = loadX {} (saveG inst ⟨ns, ts⟩ (.obj cls attrs)) := by
+  rw [skip_general inst hI ns ns' ts cls attrs hw ha, skip_general inst hI ns [] ts cls attrs hw ha]
+  have : stripAttrsG inst (ns' ++ ns) ts attrs = stripAttrsG inst ([] ++ ns) ts attrs :=
+    stripAttrsG_congr inst _ _ ts (by intro k; simp [hperm k]) attrs
+  simp only [stripG, this]
+
+/-! ### histories, including calls that are rejected or raise part-way -/
+
+/-- a call that raises leaves every target as it was -/
+theorem sstep_raised_noop (inst : Val → String → Bool) (pool : List Val) (fs : SFs) (op : SOp) (e : String)
+    (h : (sstep inst pool fs op).2 = .raised e) : (sstep inst pool fs op).1 = fs := by
+  cases op with
+  | load p a =>
+      simp only [sstep]
+      split
+      · rfl
+      · split <;> rfl
+  | save c =>
+      cases hb : c.badLevel
+      · cases hex : ((sfsGet fs c.path).isSome && !c.overwrite)
+        · cases hp : pool[c.obj]? with
+          | none => simp [sstep, hb, hex, hp]
+          | some v =>
+              cases hs : saveE inst (normSkip c.skip) v with
+              | error e' => simp [sstep, hb, hex, hp, hs]
+              | ok s => simp [sstep, hb, hex, hp, hs] at h
+        · simp [sstep, hb, hex]
+      · simp [sstep, hb]
+
+theorem sstep_frame (inst : Val → String → Bool) (pool : List Val) (fs : SFs) (op : SOp) (p : String)
+    (hq : SerializeSkip.quietOn p op = true) : sfsGet (sstep inst pool fs op).1 p = sfsGet fs p := by
+  cases op with
+  | load q a =>
+      simp only [sstep]
+      split
+      · rfl
+      · split <;> rfl
+  | save c =>
+      have hne : c.path ≠ p := by simpa [SerializeSkip.quietOn] using hq
+      cases hb : c.badLevel
+      · cases hex : ((sfsGet fs c.path).isSome && !c.overwrite)
+        · cases hp : pool[c.obj]? with
+          | none => simp [sstep, hb, hex, hp]
+          | some v =>
+              cases hs : saveE inst (normSkip c.skip) v with
+              | error e' => simp [sstep, hb, hex, hp, hs]
+              | ok s => simp [sstep, hb, hex, hp, hs, sfsGet_sfsSet, hne]
+        · simp [sstep, hb, hex]
+      · simp [sstep, hb]
+
+theorem srun_frame (inst : Val → String → Bool) (pool : List Val) (p : String) : ∀ (ops : List SOp) (fs : SFs),
+    (∀ op ∈ ops, SerializeSkip.quietOn p op = true) → sfsGet (srun inst pool fs ops).1 p = sfsGet fs p
+  | [], fs, _ => by simp [srun]
+  | op :: rest, fs, h => by
+      simp only [srun]
+      rw [srun_frame inst pool p rest _ (fun o ho => h o (List.mem_cons_of_mem _ ho))]
+      exact sstep_frame inst pool fs op p (h op (List.mem_cons_self ..))
+
+/-- **C14 over histories.**  Whatever calls came before (`pre`: saves that completed, were rejected
+— bad compression level, existing target without `mode="o"` — or raised part-way on an unpicklable
+attribute, and loads) and whatever calls that do not write `c.path` come after (`post`, again
+including failing ones): once a save of a live object with skip argument `c.skip` has completed, a
+later `load(c.path, skip=a)` returns exactly the stripped graph of THAT object for THAT call's lists
+merged with the load-time names. -/
+theorem skip_history (inst : Val → String → Bool) (hI : InstOk inst) (pool : List Val) (fs0 : SFs)
+    (pre post : List SOp) (c : SaveCall) (a : SkipArg) (cls : String) (attrs : List (String × Val))
+    (hv : pool[c.obj]? = some (.obj cls attrs))
+    (hw : wfA (.obj cls attrs) = true) (ha : attrNested (.obj cls attrs) = true)
+    (hlevel : c.badLevel = false)
+    (hfree : (sfsGet (srun inst pool fs0 pre).1 c.path).isSome = true → c.overwrite = true)
+    (hsave : raisesG inst (normSkip c.skip) (.obj cls attrs) = false)
+    (hpost : ∀ op ∈ post, SerializeSkip.quietOn c.path op = true)
+    (hty : (normSkip a).types = []) :
+    (sstep inst pool (srun inst pool fs0 (pre ++ [.save c] ++ post)).1 (.load c.path a)).2 =
+      .loaded (canon (stripG inst ((normSkip a).names ++ (normSkip c.skip).names) (normSkip c.skip).types (.obj cls attrs))) := by
+  have hstep : (sstep inst pool (srun inst pool fs0 pre).1 (.save c)).1 =
+      sfsSet (srun inst pool fs0 pre).1 c.path (saveG inst (normSkip c.skip) (.obj cls attrs)) := by
+    simp only [sstep, hlevel, hv, saveE, hsave]
+    by_cases hex : (sfsGet (srun inst pool fs0 pre).1 c.path).isSome = true
+    · simp [hex, hfree hex]
+    · simp [hex]
+  have hget : sfsGet (srun inst pool fs0 (pre ++ [.save c] ++ post)).1 c.path =
+      some (saveG inst (normSkip c.skip) (.obj cls attrs)) := by
+    rw [srun_append, srun_append]
+    simp only [srun]
+    rw [srun_frame inst pool c.path post _ hpost, hstep, sfsGet_sfsSet]
+    simp
+  have hload := skip_general inst hI (normSkip c.skip).names (normSkip a).names (normSkip c.skip).types cls attrs hw ha
+  have ha' : normSkip a = ⟨(normSkip a).names, []⟩ := by
+    cases hn : normSkip a with
+    | mk n t => simp [hn] at hty; simp [hty]
+  simp only [sstep, hget]
+  rw [ha', hload]
+
+/-- a save that is rejected or raises part-way (any number of them, in any order) changes no later outcome:
+a history with the failing calls removed loads the same object -/
+theorem failed_calls_invisible (inst : Val → String → Bool) (pool : List Val) (fs : SFs) (op : SOp) (rest : List SOp) (e : String)
+    (h : (sstep inst pool fs op).2 = .raised e) :
+    (srun inst pool fs (op :: rest)).1 = (srun inst pool fs rest).1 ∧
+    (srun inst pool fs (op :: rest)).2 = .raised e :: (srun inst pool fs rest).2 := by
+  simp [srun, sstep_raised_noop inst pool fs op e h, h]
+
+/-- the base loader differs from the code for a load-time type list that names a random-generator
+class: `_recursive_load` has no type test in its two generator branches (the witness is replayed on
+the real code by the `x-load` stream) -/
+theorem load_rng_type_counterexample :
+    load ⟨[], ["Generator"]⟩ (save {} (.obj "SA" [("g", .npRng "PCG64"), ("n", .scalar (.int 1))])) =
+      .ok (.obj "SA" [("n", .scalar (.int 1))]) ∧
+    loadX ⟨[], ["Generator"]⟩ (save {} (.obj "SA" [("g", .npRng "PCG64"), ("n", .scalar (.int 1))])) =
+      .ok (.obj "SA" [("n", .scalar (.int 1)), ("g", .npRng "PCG64")]) := by
+  constructor
+  · simp [load, save, encode, encodeAttrs, decodeAttrs, decodeAttr, fget, ftrue, reorder, dropTypes, exactType, isInstance,
+      nsOf, attrVal, bind, Except.bind]
+  · simp [loadX, save, encode, encodeAttrs, decodeAttrsX, decodeAttrX, decodeAttr, fget, ftrue, reorder, dropTypesX, isRng,
+      exactType, isInstance, nsOf, attrVal, bind, Except.bind]
+
+/-! ### non-vacuity of the round-5 statements -/
+private def sampleX : Val :=
+  .obj "SD" [("count", .scalar (.int 5)), ("meta", .dict [("k", .scalar (.int 1))]), ("handle", .fallback "unpicklable" 0),
+    ("child", .obj "SB" [("count", .scalar (.float 0)), ("p", .path "a/b"), ("arr", .ndarray "float64" [1] [.float 0])])]
+
+example : wfA sampleX = true ∧ attrNested sampleX = true := by decide
+-- an abstract base class removes its virtual instances at both levels; `object` removes everything
+example : stripG isInstanceX ["handle"] ["Real", "Mapping"] sampleX =
+    .obj "SD" [("child", .obj "SB" [("p", .path "a/b"), ("arr", .ndarray "float64" [1] [.float 0])])] := by rfl
+example : stripG isInstanceX [] ["object"] sampleX = .obj "SD" [] := by rfl
+-- the save raises unless the unpicklable attribute is named (or its type listed)
+example : raisesG isInstanceX ⟨["count"], []⟩ sampleX = true ∧ raisesG isInstanceX ⟨["handle"], []⟩ sampleX = false ∧
+    raisesG isInstanceX ⟨[], ["unpicklable"]⟩ sampleX = false := by decide
+-- a history: failing save, rejected save, the retry, a load
+example : (srun isInstanceX [sampleX] []
+      [.save ⟨0, "p", false, false, .seq []⟩, .save ⟨0, "p", false, true, .bareName "handle"⟩,
+       .save ⟨0, "p", false, false, .bareName "handle"⟩, .save ⟨0, "p", false, false, .bareName "handle"⟩]).2.map
+      (fun o => match o with | .raised e => e | .saved => "saved" | .loaded _ => "loaded") =
+    ["TypeError", "ValueError", "saved", "FileExistsError"] := by decide
+example : (normSkip (ptychoSkipArg (.bareType "ndarray") false)).names = ["_dset", "dset"] ∧
+    (normSkip (ptychoSkipArg (.seq [.name "a", .other, .type "Tensor"]) true)).names = ["a"] ∧
+    (normSkip (ptychoSkipArg (.seq [.name "a", .other, .type "Tensor"]) true)).types = ["Tensor"] := by decide
+
+end Growth5
 
 end QuantemModel.Props.C14
